@@ -92,4 +92,16 @@ LIMITS = dict(sub="limits", mode="limits", family="limits", shards=q(2, 8),
               key_fields=["k", "num", "den", "burst", "maxBody", "len", "chunked"])
 
 
-TABLE = {"C20": c20, "C11": c11, "C06": c06, "C16": c16, "C10": c10, "C08": c08, "C09": c09, "C17": c17}
+FIDELITY = dict(sub="fidelity", mode="fidelity", family="fidelity", shards=q(4, 16),
+                args=lambda tier, sd, sh: ["-seed", sd * 1000 + sh, "-n", 150 if tier == "quick" else 2000],
+                key_fields=["k", "mode", "backend", "maxBody", "maxHeaders"])
+
+
+def c07(prop, tier, res, replay=None):
+    return pure.check_cases(prop, tier, res, [FIDELITY, LIMITS], [
+        "payload identity through the store is exercised, not proved: the SQLite BLOB / JSON string-map round trip is the storage engine's (trusted base); what is proved is the base64 round trip for every byte string and the header copy rules",
+        "requests are handed to the real ingress handler as http.Request values: net/http's own wire parsing of headers (canonicalisation, token validation) is trusted; header names are HTTP tokens, values arbitrary UTF-8",
+        "consumers: real pull HTTP handler (JSON/base64 decoded by the Lean decoder), real worker gRPC handler, real HTTPDeliverer against an httptest target; memory and SQLite (with restart); one redelivery after nack"], replay)
+
+
+TABLE = {"C07": c07, "C20": c20, "C11": c11, "C06": c06, "C16": c16, "C10": c10, "C08": c08, "C09": c09, "C17": c17}
